@@ -646,7 +646,13 @@ func (c *Config) serverInit(originalConfig *Config) {
 		c.sessionTicketKeys = originalConfig.sessionTicketKeys
 		originalConfig.mutex.RUnlock()
 	} else {
-		c.sessionTicketKeys = []ticketKey{ticketKeyFromBytes(c.SessionTicketKey)}
+		// SetSessionTicketKeys may run concurrently with the first handshake: take the lock and do
+		// not overwrite keys it has installed meanwhile
+		c.mutex.Lock()
+		if len(c.sessionTicketKeys) == 0 {
+			c.sessionTicketKeys = []ticketKey{ticketKeyFromBytes(c.SessionTicketKey)}
+		}
+		c.mutex.Unlock()
 	}
 }
 
